@@ -296,10 +296,30 @@ fn packagings(v: &IxView, idx: usize, salt: u64, cov: &mut Coverage, out: &mut V
             }
             x
         };
+        let i_empty_first = {
+            // the same packaging once more, with an empty slice of another (accepted) type listed in front of the supplemental
+            // arrays: "no accounts of that kind" says nothing about the slices behind it
+            let mut x = i.clone();
+            let mut d = v.ix.data[..v.ix.data.len() - 1].to_vec();
+            d.push(1);
+            d.extend_from_slice(&2u32.to_le_bytes());
+            d.push((salt % 2) as u8); // AccountsType::TransferHookA / TransferHookB
+            d.push(0);
+            d.push(6);
+            d.push(supp.len() as u8);
+            x.data = d;
+            x
+        };
         let (ok, code, f) = exec(v.pre, i);
         cov.probe("packaging_supplemental");
         if !ok || signature(&f, &wk, &pool, &trader, &[]) != base {
             out.push(viol("supplemental_changes_outcome", idx, format!("swap_v2 with supplemental tick arrays: ok={} code={:?}, result differs:{}", ok, code, diff_sig(&base, &signature(&f, &wk, &pool, &trader, &[]), &f, &wk))));
+            return;
+        }
+        let (ok, code, f) = exec(v.pre, i_empty_first);
+        cov.probe("packaging_supplemental_behind_an_empty_slice");
+        if !ok || signature(&f, &wk, &pool, &trader, &[]) != base {
+            out.push(viol("supplemental_changes_outcome", idx, format!("swap_v2 with supplemental tick arrays listed behind an empty slice of another type: ok={} code={:?}, result differs:{}", ok, code, diff_sig(&base, &signature(&f, &wk, &pool, &trader, &[]), &f, &wk))));
             return;
         }
         let (ok, code, f) = exec(v.pre, i_ro);
